@@ -149,6 +149,27 @@ theorem front_input {o : Opts} {e : Env} {pb : Problem} (h : front o e = .ok pb)
               | doc j =>
                 refine ⟨j, rfl, by rw [← hi]; exact hd, by simpa using hcons, by simpa using hne, rfl, by simpa using hth⟩
 
+/-- the room list handed to the solver is the one `parse_rooms` delivered -/
+theorem front_rooms {o : Opts} {e : Env} {pb : Problem} (h : front o e = .ok pb) :
+    parseRooms o e = .ok (pb.rooms, pb.kinds) := by
+  unfold front at h
+  split at h
+  · contradiction
+  · split at h
+    · contradiction
+    · rename_i rooms kinds hpr
+      repeat' split at h
+      all_goals first
+        | contradiction
+        | (simp only [Except.ok.injEq] at h; subst h; exact hpr)
+
+/-- without `--rooms` and `--rooms-file` the solver gets no room list -/
+theorem front_no_rooms {o : Opts} {e : Env} {pb : Problem} (h : front o e = .ok pb)
+    (h1 : o.rooms = none) (h2 : o.roomsFile = false) : pb.rooms = none := by
+  have := front_rooms h
+  simp only [parseRooms, h1, h2, Except.ok.injEq, Prod.mk.injEq] at this
+  exact this.1.symm
+
 /-- an input file that cannot be opened or is not JSON is refused -/
 theorem C15_main_input_bad {o : Opts} {e : Env} (hb : e.input = .cannotOpen ∨ e.input = .notJson) :
     ∃ c, front o e = .error c := by
